@@ -137,6 +137,15 @@ int verif_is_symbolic(int64_t) { return 0; }
 int verif_symbolic_exec(void) { return 0; }
 double verif_uf1(const char *name, double x)
 {
+    // the uninterpreted symbols of the real abstraction stand for the libm functions
+    static const struct { const char *n; double (*f)(double); } T[] = {{"SIN", ::sin}, {"COS", ::cos}, {"TAN", ::tan}, {"EXP", ::exp}, {"LOG", ::log}, {"ASIN", ::asin}, {"ACOS", ::acos},
+        {"ATAN", ::atan}, {"SINH", ::sinh}, {"COSH", ::cosh}, {"TANH", ::tanh}, {"ASINH", ::asinh}, {"ACOSH", ::acosh}, {"ATANH", ::atanh}, {"ERF", ::erf}, {"ERFC", ::erfc},
+        {"GAMMA", ::tgamma}, {"LGAMMA", ::lgamma}, {"ROOT2", ::sqrt}};
+    for (auto &t : T)
+        if (!strcmp(t.n, name))
+            return t.f(x);
+    if (!strcmp(name, "ROOT12"))
+        return ::pow(x, 1.0 / 12);
     fprintf(stderr, "verif_uf1(%s) has no native meaning\n", name);
     _Exit(4);
 }
